@@ -548,7 +548,7 @@ ensures grows(*old(context), *final(context)),
     oq3_it1.rest() =~= mod_gate_call.sp_modifiers().skip(oq3_v1@.len() as int),
     forall|i: int| 0 <= i < oq3_v1@.len() ==> mod_same(#[trigger] mod_gate_call.sp_modifiers()[i], oq3_v1@[i]),''')},
         spec='''ensures grows(*old(context), *final(context)),
-    expr_stmt_ok(expr_stmt.sp_expr(), r),                                               //@C06:gate-call-kind-and-modifier-order''')
+    expr_stmt_ok(expr_stmt.sp_expr(), r),                                               //@C06,C13:gate-call-kind-and-modifier-order''')
     zov['stmt_to_asg_stmt']['with_scope'] = open(os.path.join(REPO, CTX)).read()
     A_ = lambda pred, label, tg='C07': 'proof { assert(%s(*old(context), *context)); }     //@%s:%s' % (pred, tg, label)
     zov['stmt_to_asg_stmt']['ghost'] = [
@@ -637,7 +637,7 @@ ensures
     final(context).errs() == old(context).errs() + undef_diag(*old(context), identifier.sp_string(), SemanticErrorKind::UndefVarError),   //@C07:undefined-reported-once
     final(context).same_tables_but_trace(old(context)), grows(*old(context), *final(context)),
 '''))
-    zov.setdefault('gate_operand_to_asg_texpr', {}).update(dict(ret='r', props=['C13', 'C03'], spec='''
+    zov.setdefault('gate_operand_to_asg_texpr', {}).update(dict(ret='r', props=['C13', 'C03', 'C07'], spec='''
 ensures
     grows(*old(context), *final(context)),
     gate_operand is HardwareQubit ==> r.ty == Type::HardwareQubit && final(context).errs() == old(context).errs(),
@@ -648,6 +648,8 @@ ensures
         r.ty == t && final(context).errs() == old(context).errs() + undef_diag(*old(context), n, SemanticErrorKind::UndefVarError)
                 + cond1(!is_quantum_operand_type(t), SemanticErrorKind::IncompatibleTypesError)
     }),                                                                                                              //@C13:operand-must-be-quantum
+    // ... and the operand stored in the graph is the symbol the name resolves to (also when it is not a quantum one)
+    gate_operand is Identifier ==> r.expression == asg::Expr::GateOperand(asg::GateOperand::Identifier(lookup_id(*old(context), gate_operand->Identifier_0.sp_string()))),     //@C07,C06:operand-refers-to-its-symbol
 ''', ghost=[('indexed_identifier_to_asg_type(indexed_identifier, context);', 'after', 'let ghost mid_e = context.errs();'),
             # an indexed operand must be an element / slice of a qubit register: anything else is reported, a qubit register is not
             ('            asg::GateOperand::IndexedIdentifier(indexed_identifier).to_texpr(typ)', 'before',
